@@ -283,6 +283,55 @@ def run(src, tier, seed):
             res.bad(r, 'seed-init:%s::%s' % (cls, fld), fx.loc(fx.func(cls + '::' + cls.split('::')[-1], pred=lambda f: True) if False else next(f for f in fx.F.values() if f.get('class') == cls and f.get('ctor'))),
                     '%s::%s is no longer initialised from the configured seed or a constant' % (cls, fld))
 
+    # ---- R4b option values: the union member an accessor reads must be guaranteed by a tag check
+    r = res.rule('option-tag-checked', 'every SMTConfig accessor that reads a numeric member (numval/decval/unumval) of an option value is protected by a type-tag test, '
+                 'in the accessor or as a rejecting test for that option in SMTConfig::setOption: otherwise a symbol/string value is accepted and the bits of its heap pointer are read as the number', floor=40)
+    so = fx.func('opensmt::SMTConfig::setOption')
+    NUMERIC_TAGS = {'O_NUM', 'O_BOOL', 'O_DEC', 'O_HEX', 'O_BIN'}
+    checked = {}
+    for n in walk(so['body']):
+        if n.get('k') == 'if' and not n.get('as'):
+            names = [x['n'].split('::')[-1] for x in walk(n['cond']) if x.get('k') == 'ref' and x.get('d') == 'global' and x['n'].split('::')[-1].startswith('o_')]
+            if not names:
+                continue
+            for m in walk(n['then']):
+                if m.get('k') == 'if' and any(x.get('k') == 'mem' and x.get('n') == 'type' for x in walk(m['cond'])) and any(x.get('k') == 'ret' for x in walk(m['then'])):
+                    tags = [x['n'].split('::')[-1] for x in walk(m['cond']) if x.get('k') == 'ref' and x.get('d') == 'enum']
+                    for nm in names:
+                        checked.setdefault(nm, set()).update(tags)
+    n_acc = 0
+    cv = fx.record('opensmt::ConfValue')
+    own = {fl['n']: fl for fl in cv['fields']}
+    members = ('strval', 'numval', 'decval', 'unumval', 'configs')
+    separate = all(m in own and own[m].get('init') for m in members)
+    shared = [rn for rn, rr in fx.R.items() if rn.startswith('opensmt::ConfValue::(anonymous') and any(fl['n'] in members for fl in rr['fields'])]
+    if not separate and not shared:
+        raise AnalysisBroken('ConfValue: value members not found')
+    res.extra['option_value_storage'] = 'separate default-initialised members' if separate else 'anonymous union'
+    for f in sorted((g for g in fx.F.values() if g.get('class') == 'opensmt::SMTConfig'), key=lambda g: g['name']):
+        reads = []
+        for n in fwalk(f):
+            if n.get('k') == 'mem' and n.get('n') in ('numval', 'decval', 'unumval') and not n.get('as'):
+                opts = [x['n'].split('::')[-1] for x in walk(n['b']) if x.get('k') == 'ref' and x.get('d') == 'global' and x['n'].split('::')[-1].startswith('o_')]
+                for o in opts:
+                    reads.append((o, n['n'], n.get('ln')))
+        if not reads or f['name'].endswith('::setOption'):
+            continue
+        self_checks = any(x.get('k') == 'mem' and x.get('n') == 'type' for x in fwalk(f))
+        for o, member, ln in sorted(set(reads)):
+            n_acc += 1
+            tags = checked.get(o, set())
+            if separate:
+                res.ok(r, '%s reads %s of %s: the members of ConfValue have their own default-initialised storage, a mismatched read is deterministic' % (f['name'].split('::')[-1], member, o))
+            elif self_checks or (tags and tags <= NUMERIC_TAGS):
+                res.ok(r, '%s reads %s of %s: tag checked (%s)' % (f['name'].split('::')[-1], member, o, 'in the accessor' if self_checks else sorted(tags)))
+            else:
+                res.bad(r, 'option-tag-unchecked:%s:%s' % (o, f['name'].split('::')[-1]), fx.loc(f, ln),
+                        'SMTConfig::%s reads .%s of option %s, but neither the accessor nor setOption checks the value\'s type tag: `(set-option %s abc)` is accepted and the pointer bits of the '
+                        'strdup\'ed symbol are used as the number (differs from run to run under address-space randomisation)' % (f['name'].split('::')[-1], member, o, ':' + o[2:].replace('_', '-')))
+    if n_acc < 40:
+        raise AnalysisBroken('only %d numeric option accessors found (expected >= 40)' % n_acc)
+
     # ---- R5 chunk independence (shared with C20)
     import C20
     r = res.rule('framing-independent-of-chunking', 'pipe-mode command framing is a function of the bytes, not of where read() boundaries fall (C20 rule)', floor=1)
